@@ -336,6 +336,26 @@ PROPS = {
         ],
         "assumptions": [],
     },
+    "C14": {
+        "required_theorems": ["c14_parse_serialize", "c14_reassemble", "c14_segmentation_independent", "c14_file_roundtrip",
+                              "c14_au_roundtrip", "c14_sigmf_order", "c14_sigmf_lookup"],
+        "runs": [
+            {"sub": "bytes", "quick": ["--seed", "{seed}", "--cases", 20],
+             "thorough": ["--seed", "{seed}", "--cases", 1500], "timeout": 40000},
+        ],
+        "rule": "serialize/parse of u8,u32,i32,f32,complex on boundary and random bit patterns (NaN payloads, infinities, "
+                "sign bits) and reassembly of random byte strings under random segmentations (0..9-byte chunks) compared with "
+                "the Lean model; FileSink->FileSource round trips (f32, complex; 0..3000 samples); FileSource on a FIFO and "
+                "TcpSource on a socket whose writer imposes 1-byte, 1..6-byte and 1..900-byte writes; SigMF archives built with "
+                "the tar crate in random member order with unrelated members, and with the data member missing/duplicated or a "
+                "second metadata member (must be refused; the lookup also compared with the Lean model); AuEncode->AuDecode "
+                "through one-page streams with random chunking against the PCM16 quantisation. distinct = distinct request.",
+        "trusted_base": GLOBAL_TB + [
+            "modelled, not verified: the kernel, std::io (read may return any non-empty prefix), the tar crate (an archive is its "
+            "member list), serde_json; the f32<->i16 conversions of the AU codec are parameters of the model",
+        ],
+        "assumptions": [],
+    },
 }
 
 MANIFEST_TEXT = {
@@ -524,6 +544,19 @@ MANIFEST_TEXT = {
         "design_ref": "DESIGN.md section 2, C18",
         "note": "PARTIAL: the kernel is a parameter of the model. The missing sample-size admission test was repaired by a fix: commit.",
         "technique": "Lean 4 proof over strace-generated syscall sequences + /proc leak counting on the real code",
+    },
+    "C14": {
+        "text": "Lean 4 theorems: parse(serialize v) = v for every sample type and every bit pattern (byte algebra on "
+                "little-endian digits, not enumeration); for EVERY segmentation of a byte stream into read() results the "
+                "reassembly buffer emits exactly the whole samples of the concatenation, in order, holding back fewer than one "
+                "sample (induction over the chunk list), hence segmentation independence and the file round trip; decoding the AU "
+                "encoder's output yields exactly the quantised samples (header fully consumed); the SigMF member lookup is "
+                "invariant under permutation of the archive members and ignores unrelated members, duplicates/absence are "
+                "errors. Tied to the code by model comparison and by real pipes, sockets, files and tar archives.",
+        "design_ref": "DESIGN.md section 2, C14",
+        "note": "Four defects were repaired by fix: commits (AuDecode header not consumed, TcpSource short reads, partial sample "
+                "carried across a repeat in FileSource/SigMFSource).",
+        "technique": "Lean 4 proof (byte algebra, induction over segmentations) + differential correspondence + real I/O round trips",
     },
 }
 
